@@ -232,6 +232,98 @@ def helper_rules(ctx, rule: str):
                                                                 "a class without cutter must be refused: %r" % (o,))]), cc.where())
 
 
+def identity_rule(ctx, rule: str):
+    """Modules, vectors and parts compare and hash by identity: the
+    per-instance match cache (a WeakKeyDictionary) and the duplicate detection
+    of the assembly (`is`, de-duplication of arguments) both rest on it."""
+    p = ctx.program
+    r = ctx.report
+    seen = set()
+    for kc in ctx.inventory:
+        for c in p.mro(kc.ci):
+            if hasattr(c, "attrs") and id(c) not in seen:
+                seen.add(id(c))
+                bad = [a for a in ("__eq__", "__hash__", "__ne__") if a in c.attrs]
+                r.ob(rule, c.qualname, not bad,
+                     "%s defines %s: two wrappers that compare equal share one cached match and collapse into one module wherever arguments are de-duplicated"
+                     % (c.qualname, ", ".join(bad)), c.where())
+    r.floor(rule, 80)
+
+
+def assembly_layering_rule(ctx, rule: str):
+    """moclo.core._assembly reaches into a module or vector only through its
+    public accessors: no `_match`, no span/group arithmetic, no rotation or
+    slicing of an input's record.  Fragment extraction proved by K7/K8 is only
+    what the walk uses as long as the walk does not redo it by hand."""
+    p = ctx.program
+    r = ctx.report
+    m = p.modules["moclo.core._assembly"]
+    parents = {}
+    for node in ast.walk(m.tree):
+        for ch in ast.iter_child_nodes(node):
+            parents[id(ch)] = node
+    n = 0
+    bad = []
+    for node in ast.walk(m.tree):
+        why = None
+        if isinstance(node, ast.Attribute) and node.attr in ("_match", "_get_regex", "structure"):
+            why = "reads the private `%s` of a module or vector" % node.attr
+        elif isinstance(node, ast.Call) and isinstance(node.func, ast.Attribute) and node.func.attr in ("span", "group") and not (
+                isinstance(node.func.value, ast.Name) and node.func.value.id in ("match", "m")):
+            why = "does span/group arithmetic on a structure match"
+        elif isinstance(node, ast.BinOp) and isinstance(node.op, (ast.LShift, ast.RShift)):
+            why = "rotates a record itself"
+        elif isinstance(node, ast.Subscript) and isinstance(node.slice, ast.Slice):
+            root, path = chain_of(node.value)
+            if ".record" in "".join(path) or ".seq" in "".join(path):
+                why = "slices an input's record itself"
+        if why:
+            bad.append((node, why))
+    funcs = [v for ci in m.classes.values() for v in ci.attrs.values() if isinstance(v, FuncInfo)]
+    for fi in funcs:
+        n += 1
+        mine = [(nd, w) for nd, w in bad if fi.node.lineno <= nd.lineno <= (fi.node.end_lineno or fi.node.lineno)]
+        r.ob(rule, fi.qualname, not mine,
+             "the assembly %s (`%s`): fragments and overhangs must come from the accessors" % (mine[0][1], re.sub(r"\s+", " ", m.segment(mine[0][0]) or "")[:80]) if mine else "",
+             "%s:%d" % (m.relpath, mine[0][0].lineno if mine else fi.node.lineno))
+    r.floor(rule, 6)
+
+
+def fragment_cache_rule(ctx, rule: str):
+    """Fragments and overhangs are rebuilt on every call: what target_sequence()
+    returns is mutated by its callers (a source feature is appended, citations
+    are rewritten), so memoising it -- cached_property, lru_cache, or a store
+    on the instance -- shares that mutable state between assemblies."""
+    p = ctx.program
+    r = ctx.report
+    names = ("target_sequence", "placeholder_sequence", "overhang_start", "overhang_end")
+    seen = set()
+    n = 0
+    for kc in list(ctx.inventory) + [None]:
+        cis = p.mro(kc.ci) if kc is not None else [p.get_class("moclo.core.modules.AbstractModule"), p.get_class("moclo.core.vectors.AbstractVector")]
+        for c in cis:
+            if not isinstance(c, ClassInfo) or id(c) in seen:
+                continue
+            seen.add(id(c))
+            for nm, raw in c.attrs.items():
+                if not isinstance(raw, FuncInfo):
+                    continue
+                memo = [d for d in raw.decorators if d in ("cached_property", "lru_cache", "cache", "memoize", "memoized")]
+                if nm in names or nm == "_match":
+                    n += 1
+                if nm != "_match" and memo:
+                    r.ob(rule, raw.qualname, False,
+                         "%s is memoised (%s): a record it returns is shared between calls although its callers modify it" % (raw.qualname, ", ".join(memo)), raw.where())
+                if nm in names:
+                    stores = [x for x in ast.walk(raw.node) if isinstance(x, (ast.Assign, ast.AugAssign)) and any(
+                        isinstance(t, ast.Attribute) and isinstance(t.value, ast.Name) and t.value.id == (raw.node.args.args[0].arg if raw.node.args.args else "self")
+                        for t in (x.targets if isinstance(x, ast.Assign) else [x.target]))]
+                    r.ob(rule, raw.qualname + "#stores", not stores,
+                         "%s keeps state on the instance (`%s`): its result is no longer rebuilt from the record on every call"
+                         % (raw.qualname, re.sub(r"\s+", " ", raw.module.segment(stores[0]) or "")[:70] if stores else ""), raw.where())
+    r.floor(rule, 7)
+
+
 def warning_filter_rule(ctx, rule: str):
     """The UnusedModules warning must reach the caller: no warning filter
     between the walk and the caller may ignore a category that covers it."""
